@@ -106,7 +106,12 @@ Proof.
 Qed.
 
 Lemma norm_batch_pos b : (1 <= norm_batch b)%nat.
-Proof. unfold norm_batch. destruct (Nat.leb b 1) eqn:E; [lia|]. apply Nat.leb_gt in E. lia. Qed.
+Proof.
+  unfold norm_batch. destruct (Nat.leb b 1) eqn:E; [lia|]. apply Nat.leb_gt in E.
+  destruct (N.of_nat b <? 4294967296); [lia|].
+  assert (H : (0 < N.to_nat 4294967295)%nat); [|lia].
+  unfold N.to_nat. apply Pos2Nat.is_pos.
+Qed.
 
 Theorem scan_forward_complete :
   forall (T : truth) (ts : N) (lo hi : key) (B : nat) (ko : bool)
